@@ -80,14 +80,21 @@ pub struct TypedReq {
     pub seed: u8,
 }
 
+/// An allocation made by the closure of `alloc_try_with`: (pointer, length, alignment, fill byte).
+pub type Extra = (*mut u8, usize, usize, u8);
+
 #[derive(Clone, Debug)]
 pub enum TypedRes {
     /// Block handed out: pointer, byte length, alignment of the element type, expected bytes.
-    Block { ptr: *mut u8, len: usize, align: usize, expect: Vec<u8> },
+    Block { ptr: *mut u8, len: usize, align: usize, expect: Vec<u8>, extra: Vec<Extra> },
     /// try_ method returned Err(AllocError)
     Failed,
     /// the closure of alloc_try_with returned Err
-    ClosureErr,
+    ClosureErr { extra: Vec<Extra> },
+    /// the slice handed out has the wrong number of elements
+    WrongLen { got: usize, want: usize },
+    /// succeeded without handing out a block (allocate + dealloc)
+    Nothing,
     Unsupported,
 }
 
